@@ -7,8 +7,10 @@ import (
 	"fmt"
 	"io"
 	"os"
+	"os/signal"
 	"strconv"
 	"sync"
+	"syscall"
 	"time"
 
 	hclog "github.com/hashicorp/go-hclog"
@@ -223,6 +225,8 @@ func pluginDial(mux *plugin.MuxBroker, gb *plugin.GRPCBroker, r vp.Req) vp.Resp 
 }
 
 func vmain() {
+	// the plugin does not go away on SIGTERM (plugins are free to handle it): what ends it is the shutdown request or a real kill
+	signal.Ignore(syscall.SIGTERM)
 	if err := json.Unmarshal([]byte(os.Getenv("VP_CONFIG")), &cfg); err != nil {
 		fmt.Fprintln(os.Stderr, "vplugin: bad VP_CONFIG:", err)
 		os.Exit(2)
